@@ -536,6 +536,65 @@ def rule_unq(S):
                  loc=short_loc(n))
 
 
+def rule_lst(S):
+    """R-LST: list_storages hands out every entry its catalogue scan delivered."""
+    from yk.flow import Explorer
+    facts = S.facts()
+    S.rule('R-LST', 'storage::list_storages: every element of the catalogue scan\'s result that the walk takes up is appended '
+                    'to the output before the walk moves on or ends (no entry is filtered out: an emptied storage - its '
+                    'root is the empty deleted border - is still a storage), so the listed names are exactly the names '
+                    'the scan saw')
+    g = facts.one('yakushima::storage::list_storages')
+    outp = [p_['id'] for p_ in g.params if 'std::vector' in (p_.get('type') or '')]
+    if len(outp) != 1:
+        raise AnalysisBroken('R-LST: output parameter of list_storages not found')
+    outp = outp[0]
+    elem_decls = []
+    for n in g.all_nodes():
+        if n['k'] == 'DeclStmt':
+            for v in n.get('vars', []):
+                if 'init' in v and not (v.get('name') or '').startswith('__') and \
+                        any(x['k'] == 'DeclRefExpr' and (x.get('name') or '').startswith('__begin') for x in g.walk(v['init'])):
+                    elem_decls.append(n)
+    if len(elem_decls) != 1:
+        raise AnalysisBroken('R-LST: the walk over the scan result was not found in list_storages (%d candidates)' %
+                             len(elem_decls))
+    ed = elem_decls[0]
+    res = {'ok': True, 'path': None, 'loc': g.loc}
+    seen = {'app': 0}
+
+    def fail(ctx, nd):
+        if res['ok']:
+            res['ok'] = False
+            res['path'] = ctx.witness() if ctx is not None else None
+            res['loc'] = short_loc(nd) if nd is not None else g.loc
+
+    def step(ctx, nd, st):
+        if nd is ed:
+            if st:
+                fail(ctx, nd)
+            return True
+        if nd['k'] in CALL_KINDS and nd.get('cn') in ('emplace_back', 'push_back') and \
+                root_var(g, call_recv(g, nd)) == outp:
+            seen['app'] += 1
+            return False
+        if nd['k'] == 'ReturnStmt':
+            if st:
+                fail(ctx, nd)
+            return None
+        return st
+
+    ex = Explorer(g, step)
+    ex.run(False)
+    if any(st for st in ex.exit_states):
+        fail(None, None)
+    S.require('R-LST', 'appends to the output of list_storages', seen['app'], 1)
+    S.ob('R-LST', g.qname, 'every scanned entry is listed', res['ok'],
+         'each element taken up by the walk is appended to the output' if res['ok'] else
+         'a path through the walk over the scan result skips an entry: a storage that exists (find_storage succeeds, '
+         'create_storage refuses the name) is missing from the list', loc=res['loc'], path=res['path'])
+
+
 def rule_sess(S, rule='R-SESS'):
     """The library's own sessions: what a DDL function looked up inside its session is not used after its leave."""
     from yk.flow import Explorer
@@ -685,6 +744,7 @@ def run(S):
     rule_atom(S)
     rule_sess(S)
     rule_unq(S)
+    rule_lst(S)
     # 'exactly one of several concurrent creates succeeds' rests on the unique insert of put (shared with C01)
     from checks import shared
     shared.writers_revalidate(S)
